@@ -71,6 +71,7 @@ def events_for_segment(model, specs, spy_snaps, n0, calls_ends, final_n):
             else:
                 interp = float("nan")
             c.append({"holds": holds(v, sp), "sat": sat, "tlo": cmp3(ts, float(t[n - 1]), rtol=1e-12), "thi": cmp3(ts, float(t[n]), rtol=1e-12),
+                      "tneg": bool(ts == -1),
                       "ti": cmp3(ts, interp, rtol=1e-9), "tsame": bool(i not in prev_t or prev_t[i] == ts or not (n - 1 in snaps and snaps[n - 1][i][0]))})
             prev_t[i] = ts
         last = n in ends
@@ -106,8 +107,29 @@ def run_stop(cfg):
     except Exception as ex:  # noqa
         err = "%s: %s" % (type(ex).__name__, str(ex)[:200])
     ev += events_for_segment(m, specs, spy.snaps, 0, ends, int(m.pData.n) - (1 if capped else 0))
+    nsteps = int(m.pData.n)
+    # second run on the SAME model and condition objects after reset(): short enough that late conditions are not met again
+    if cfg.get("rerun") and not err and not capped:
+        try:
+            m.reset()
+            spy.snaps = []
+            obs.snaps = []
+            ev.append({"e": "reset", "holds0": [holds(value(m, s, 0), s) for s in specs], "sat": [bool(c.isSatisfied()) for c in conds],
+                       "tcleared": [bool(c.satisfiedTime() == -1) for c in conds]})
+            m.setup()
+            ends2 = []
+            for (span, maxfrac) in cfg["rerun"]:
+                n0, t0 = int(m.pData.n), float(m.pData.time[m.pData.n])
+                m.solve(span, solverType=it, maxDtFrac=maxfrac)
+                ends2.append((n0, int(m.pData.n), t0, span))
+            ev += events_for_segment(m, specs, spy.snaps, 0, ends2, int(m.pData.n))
+            nsteps += int(m.pData.n)
+        except K.StepCap:
+            pass
+        except Exception as ex:  # noqa
+            err = "%s: %s" % (type(ex).__name__, str(ex)[:200])
     ev.append({"e": "exception", "msg": err} if err else {"e": "done"})
-    return ev, {"steps": int(m.pData.n), "error": err, "stopped_at": [e[1] for e in ends], "capped": capped}
+    return ev, {"steps": nsteps, "error": err, "stopped_at": [e[1] for e in ends], "capped": capped}
 
 
 def run_ttp(cfg):
@@ -151,6 +173,7 @@ def run_ttp(cfg):
         if seg and seg[-1]["e"] == "step":
             for i, sp in enumerate(specs):
                 seg[-1]["c"][i]["reported"] = bool(vals[i] == snaps[-1][1][i][1]) if snaps else False
+                seg[-1]["c"][i]["repneg"] = bool(vals[i] == -1)
         ev += seg
     ev.append({"e": "exception", "msg": err} if err else {"e": "done"})
     return ev, {"steps": sum(s[2] for s in segs), "error": err, "temps": [s[0] for s in segs]}
@@ -198,6 +221,8 @@ def gen_configs(rng, tier):
             stop.append((k, bool(gt), float(thr), rng.choice(["or", "and"]), None))
         c = dict(base, tag="stop-%d" % i, stop=stop, iter=rng.choice(["euler", "euler", "rk4"]),
                  calls=[(100.0, 0.02)] if rng.random() < 0.7 else [(40.0, 0.02), (60.0, 0.02)])
+        if i % 3 == 0:
+            c["rerun"] = [(10.0, 0.05)]       # after reset(): too short for the "late" thresholds
         cfgs.append(c)
     # non-monotonic monitored quantities (nucleation burst, density peak): met early, fall back below the threshold later,
     # and-combined with a condition that is met late / or-combined with one never met
@@ -227,4 +252,10 @@ def gen_ttp(rng, tier, ref):
             stop.append(("nuc", True, float(max(ref["nuc"]) * 100 + 1), "and", None))   # never met: runs to maxTime
         cfgs.append(dict(phases=[dict(name="beta", gamma=0.05)], D=1e-16, cap=10 ** 9, tag="ttp-%d" % i, stop=stop, se=1e-5,
                          ttp=(990.0, 1010.0, 2 + i % 2, 60.0), calls=[]))
+    # a sweep that ends above the temperature at which the volume-fraction threshold can be reached: met at the first
+    # temperature, not met at the last (the calculator re-uses the same condition objects after model.reset())
+    for i, it in enumerate(("first-met-last-not",)):
+        stop = [("vf", True, 0.004, "and", None), ("ravg", True, 2e-10, "and", None)]
+        cfgs.append(dict(phases=[dict(name="beta", gamma=0.05)], D=1e-15, cap=10 ** 9, tag="ttp-" + it, stop=stop, se=2.4e-4, x0=0.02,
+                         ttp=(1000.0, 1058.0, 2, 30.0), calls=[]))
     return cfgs
